@@ -120,7 +120,7 @@ func cmdCheck(args []string) int {
 	// structural and lemma obligations
 	extra := runStructural(L, cs, ps)
 	groups = append(groups, extra...)
-	lem := runLemmas(L, cs, ps, timeout, all)
+	lem := runLemmas(L, cs, ps, timeout, all, known...)
 	groups = append(groups, lem...)
 
 	baseline := loadBaseline(id)
@@ -231,7 +231,11 @@ func cmdCheck(args []string) int {
 				fmt.Printf("VIOLATION property=%s replay=%s\n", id, path)
 				violations++
 			} else {
-				undecided = append(undecided, g.Name)
+				n := g.Name
+				if g.Class == "LEMMA" && len(g.Instances) == 0 {
+					n += " [" + g.Info + "]"
+				}
+				undecided = append(undecided, n)
 			}
 		}
 		if len(samples) < 400 {
